@@ -30,6 +30,18 @@ MaxReachOfBy(r, e, alt) ==     \* max weight over e itself, edges reachable from
   IN Max({IF alt THEN Wt2(r, g) ELSE Wt(r, g) : g \in {e} \cup fwd \cup bwd})
 MaxReachOf(r, e) == MaxReachOfBy(r, e, FALSE)
 
+(* flow width: the fewest source-to-sink paths of the augmented graph (with repetition) that cover every inner, non-ignored edge
+   while no edge is used more often than its flow value (synthetic edges: unbounded).  A second use of the same path covers nothing
+   new, so a minimum is a SET of paths: decided over all subsets. *)
+APaths(a) == PathsFrom(a, SRC, {SNK})
+FlowWidth(r, a, ign) ==
+  LET ps == SetToSeq(APaths(a))
+      need == {e \in a.edges : e[1] # SRC /\ e[2] # SNK} \ ign
+      cap(e) == IF e[1] = SRC \/ e[2] = SNK THEN 99 ELSE Wt(r, e)
+      Use(m, e) == SumSeq([i \in 1..Len(ps) |-> IF e \in EdgesOfSeq(ps[i]) THEN m[i] ELSE 0])
+      ok(m) == (\A e \in need : Use(m, e) >= 1) /\ (\A e \in a.edges : Use(m, e) <= cap(e))
+      sols == {m \in [1..Len(ps) -> 0..1] : ok(m)}
+  IN IF sols = {} THEN -1 ELSE Min({SumSeq(m) : m \in sols})
 STP(r) == UNION {PathsFrom(UG(r), s, Sinks(UG(r))) : s \in Sources(UG(r))}
 Holds(r, ev) ==
   LET a == A(r) IN
@@ -51,6 +63,22 @@ Holds(r, ev) ==
                                ELSE /\ IsRoute(UG(r), {}, {}, ev.paths[1])
                                     /\ ev.ret = Min({Wt(r, e) : e \in EdgesOfSeq(ev.paths[1])})
                                     /\ \A p \in STP(r) : Min({Wt(r, e) : e \in EdgesOfSeq(p)}) <= ev.ret
+    [] ev.op = "scc_stats" ->      \* components counted in member edges (both ends in the component, self-loops included)
+         LET comps == {SCCOf(a, v) : v \in a.nodes}
+             Size(c) == Cardinality({e \in a.edges : e[1] \in c /\ e[2] \in c})
+             nontriv == {c \in comps : Size(c) > 0}
+         IN /\ ev.ret = Cardinality(nontriv)
+            /\ ev.ret2 = Max({Size(c) : c \in comps} \cup {0})
+            /\ ev.ret3 = (IF nontriv = {} THEN 0 ELSE SumOver(nontriv, Size) \div Cardinality(nontriv))
+    [] ev.op = "flow_width" -> ev.ret = FlowWidth(r, a, {<<t[1], t[2]>> : t \in ToSet(ev.arg[1])})
+    [] ev.op = "max_flow" ->
+         LET E == UG(r).edges \ {<<t[1], t[2]>> : t \in ToSet(ev.arg[1])}
+         IN E # {} => ev.ret = Max({Wt(r, e) : e \in E}) * UNIT
+    [] ev.op = "nonzero" -> ToSet(ev.rete) = {e \in UG(r).edges : Wt(r, e) # 0} \ {<<t[1], t[2]>> : t \in ToSet(ev.arg[1])}
+    [] ev.op = "conserves" ->
+         LET g == UG(r)
+             inner == {v \in g.nodes : In(g, v) # {} /\ Out(g, v) # {}}
+         IN ev.ret = (IF \A v \in inner : SumOver(In(g, v), LAMBDA e : Wt(r, e)) = SumOver(Out(g, v), LAMBDA e : Wt(r, e)) THEN 1 ELSE 0)
     [] ev.op = "max_occurrence" ->      \* largest listed length (absent = 1) of seq positions lying on one of the paths
          LET seq == ev.arg[1]  paths == ev.arg[2]  lens == ev.arg[3]
              LenOfE(e) == LET S == {t \in ToSet(lens) : <<t[1], t[2]>> = e} IN IF S = {} THEN 1 ELSE (CHOOSE t \in S : TRUE)[3]
